@@ -111,6 +111,22 @@ GRAPHS['same_label'] = {
                          let('z', call('bridge', 'MYEE', 'Br', x=P('b'))), RET(B('+', B('*', V('x'), I(10000)), B('+', B('*', V('y'), I(100)), V('z'))))],
     ('bridge', 'Br'): [RET(B('+', P('x'), I(7)))],
     ('bridge2', 'Br'): [RET(B('-', P('x'), I(3)))]}
+GRAPHS['return_in_loops'] = {
+    # a return executed inside a while / for each / nested loop ends the INVOCATION (not just the loop):
+    # the statements behind the loop (a fall-back return, a side effect) must not run
+    ('function', 'F1'): [let('x', FN('F2', x=P('a'), lim=P('n'))),
+                         let('y', call('class', 'Class', 'Class_Based_Operation', P1=P('b'), P2=P('a'))),
+                         let('z', call('bridge', 'MYEE', 'Br', x=P('b'))),
+                         ('select', 'many', 'cs', 'Class', None),
+                         RET(B('+', B('*', V('x'), I(1000000)), B('+', B('*', V('y'), I(1000)), B('+', B('*', V('z'), I(10)), U('cardinality', V('cs'))))))],
+    ('function', 'F2'): [let('i', I(0)),
+                         WH(B('<', V('i'), I(3)), [IF(B('==', V('i'), P('lim')), [RET(B('+', B('*', V('i'), I(10)), I(5)))]), inc('i')]),
+                         ('create', 'c', 'Class'), seta('c', 'val', P('x')),
+                         RET(B('-', I(0), I(1)))],
+    ('class', 'Class_Based_Operation'): [('select', 'many', 'cs', 'Class', None),
+                                         FE('c', 'cs', [FE('d', 'cs', [IF(B('==', A(V('d'), 'val'), P('P1')), [RET(B('+', I(500), I(1)))])])]),
+                                         RET(I(7))],
+    ('bridge', 'Br'): [WH(T, [IF(B('>', P('x'), I(0)), [RET(I(1))]), RET(I(2))]), RET(I(3))]}
 G = GRAPHS[GRAPH]
 STYLE = PARAMS.get('style', 'lower')
 BP = None
